@@ -25,6 +25,8 @@ for sid in sorted(fp):
         key = "(moot)"
     elif m.get("not_claimed"):
         key = "(not claimed, §7.5)"
+    elif m.get("caught_by"):
+        key = "(by the check of %s: `%s`)" % (m["caught_by"]["check"], m["caught_by"]["keys"][0])
     else:
         keys = c.get("keys") or c.get("check_keys") or []
         key = "`%s`" % keys[0] if keys and c.get("check_exit") == 1 else "MISSED"
